@@ -531,25 +531,53 @@ String File::getRelativePath(const String& from, const String& to)
   String simTo = simplifyPath(to);
   if(simFrom == simTo)
     return String(".");
-  simFrom.append('/');
-  if(String::compare((const char*)simTo, (const char*)simFrom, simFrom.length()) == 0)
-    return String((const char*)simTo + simFrom.length(), simTo.length() - simFrom.length());
-  String result("../");
-  while(simFrom.length() > 0)
+  bool absolute = isAbsolutePath(simFrom);
+  if(absolute != isAbsolutePath(simTo))
+    return String();
+
+  // skip the leading components both paths have in common
+  const char* f = simFrom;
+  const char* t = simTo;
+  while(*f && *t)
   {
-    simFrom.resize(simFrom.length() - 1);
-    const char* newEnd = simFrom.findLast('/');
-    if(!newEnd)
+    const char* fEnd = String::find(f, '/');
+    const char* tEnd = String::find(t, '/');
+    usize fLen = fEnd ? (usize)(fEnd - f) : String::length(f);
+    usize tLen = tEnd ? (usize)(tEnd - t) : String::length(t);
+    if(fLen != tLen || String::compare(f, t, fLen) != 0)
       break;
-    simFrom.resize((newEnd - (const char*)simFrom) + 1);
-    if(String::compare((const char*)simTo, (const char*)simFrom, simFrom.length()) == 0)
-    {
-      result.append(String((const char*)simTo + simFrom.length(), simTo.length() - simFrom.length()));
-      return result;
-    }
-    result.append("../");
+    f += fLen;
+    if(*f)
+      ++f;
+    t += tLen;
+    if(*t)
+      ++t;
   }
-  return String();
+
+  // go up once for each remaining component of from, then down the rest of to
+  String result;
+  while(*f)
+  {
+    const char* fEnd = String::find(f, '/');
+    usize fLen = fEnd ? (usize)(fEnd - f) : String::length(f);
+    if(fLen == 2 && f[0] == '.' && f[1] == '.')
+    {
+      if(!absolute)
+        return String(); // the name of the directory to go down into is not known
+    }
+    else
+      result.append("../", 3);
+    f += fLen;
+    if(*f)
+      ++f;
+  }
+  if(*t)
+    result.append(t, String::length(t));
+  else if(!result.isEmpty())
+    result.resize(result.length() - 1);
+  else
+    result.append('.');
+  return result;
 }
 
 String File::getAbsolutePath(const String& path)
